@@ -728,7 +728,10 @@ func ruleLKOwn(c *Ctx) {
 				}
 				n++
 				key := fmt.Sprintf("%s/new-compressor#%d", fnKey(fn), n)
-				okOwn := allowed[fn] || onlyReturned(a) && calledOnlyFrom(P, fn, allowed, 0)
+				// a constructor literal kept in an initialisation-time table hands out a fresh compressor per call,
+				// whoever calls it (that no package-level variable can hold one is checked above)
+				tableCtor := fn.Parent() != nil && fn.Parent().Synthetic != "" && fn.Parent().Name() == "init"
+				okOwn := allowed[fn] || onlyReturned(a) && (calledOnlyFrom(P, fn, allowed, 0) || tableCtor)
 				c.Check(okOwn, key, P.pos(a.Pos()), "allocated per ReadFile call / per FileWriter (directly, or by a helper that only returns it to them)", "a stateful compressor is allocated outside ReadFile/NewFileWriter")
 			}
 		}
